@@ -44,6 +44,24 @@ class ObjectDomain(EffectDomain):
             return "T"
         return super().truth(value)
 
+    def object_truth(self, interp, value, st, fr):
+        """bool(<instance>) when its class defines __bool__ or __len__: the results of running that method."""
+        if not is_inst(value):
+            return None
+        if self._has_method(value[2], "__bool__"):
+            return self.call_method(interp, value, "__bool__", [], [], st, fr)
+        if self._has_method(value[2], "__len__"):
+            out = []
+            for r in self.call_method(interp, value, "__len__", [], [], st, fr) or []:
+                if r.kind == "exc":
+                    out.append(r)
+                elif isinstance(r.value, tuple) and r.value[:1] == ("const",) and isinstance(r.value[1], int):
+                    out.append(val(TRUE if r.value[1] else FALSE, r.state))
+                else:
+                    out.append(val(("bool",), r.state))
+            return out
+        return None
+
     def is_none(self, value):
         if is_inst(value) or is_exitstack(value) or (isinstance(value, tuple) and value[:1] and value[0] in CALLABLE_TAGS + ("excclass",)):
             return "F"
@@ -619,6 +637,8 @@ class ObjectDomain(EffectDomain):
     def apply_method(self, interp, name, pos, kw, st, fr):
         """A method of the analysed object, called through a value."""
         d = "self." + name
+        if d in self.ctors:
+            return self.apply(interp, ("ctorref", d), pos, kw, st, fr)
         if self.track(d) or d in self.results or d in self.raises:
             def logged(tag):
                 if not self.track(d):
